@@ -364,7 +364,7 @@ func (p *Program) Explore(h *HarnessRun, nworkers int, solverBin string) {
 		go func(id int) {
 			defer wg.Done()
 			wk := &Worker{id: id, T: term.NewTable(), funcs: map[*ssa.Function]int{}, stubs: map[*ssa.Function]int{}}
-			s, err := smt.New(solverBin, h.IncrTimeout)
+			s, err := smt.NewWith(solverBin, h.IncrTimeout, h.Params["fpUF"] == 1)
 			if err != nil {
 				h.noteInconclusive("cannot start solver: " + err.Error())
 				return
